@@ -175,7 +175,7 @@ func directedPauseFlush() input {
 func gen(r *hx.Rand, tier string) []json.RawMessage {
 	per := 9
 	if tier == "thorough" {
-		per = 120
+		per = 60
 	}
 	var out []json.RawMessage
 	out = append(out, hx.J(directedPauseFlush()))
